@@ -11,6 +11,8 @@ INVARIANT InvTrunkFirst
 INVARIANT InvSides
 INVARIANT InvNoRoles
 INVARIANT InvReorderOnly
+INVARIANT InvNetCurrent
+INVARIANT InvRecAllCovers
 INVARIANT LemmaFindLocation
 INVARIANT LemmaOneSide
 INVARIANT LemmaUniqueTrunk
